@@ -1,17 +1,127 @@
 /-
   C08 — PLY files written by other tools load to what the specification says.
-  Theorems about the reader model `PolyVerif.Ply.readMesh` on files produced by the reference encoder
-  `PolyVerif.PlySpec.refEncode`.
+
+  `PlySpec.SpecFile` describes any file of the property's grammar (any permutation of the vertex properties, alias
+  spellings, extra unrecognised scalars, comment / obj_info lines, LF / CRLF header lines, list count type
+  uchar|int|uint, index type int|uint, triangles and quads, three encodings); `PlySpec.refEncode` is a reference
+  encoder written from the specification and `PlySpec.meaning` the mesh the file denotes.  The `c08` stream checks on
+  every run that (1) an independent Go reference encoder produces the same bytes as `refEncode`, (2) the real
+  `ply.ReadMesh` and the model reader agree on those bytes, (3) the implementation's result equals `meaning f`.
+
+  Proved here (for ALL inputs): the reader's location arithmetic — for ANY order of the header's properties the
+  location computed for a property is the sum of the strides of the properties before it, and decoding there yields
+  that property's stored value (binary, both byte orders; ASCII column = header index); header line reading under LF
+  and CRLF; quad → fan; the mixed-type-group counterexample.  The composed statement `ply_reads_spec_full` is kept as
+  a `def … : Prop` (residue).
 -/
 import PolyVerif.Model.Ply
 import PolyVerif.Model.PlySpec
+import PolyVerif.Lemmas.Ply
 
 namespace PolyVerif
 namespace C08
-open Ply PlySpec
+open Ply PlySpec PlyLemmas
 
-/-- each quad contributes the two fan triangles over its listed vertices -/
+variable {α : Type}
+
+/-! ### offsets from header order, any permutation -/
+
+/-- binary: the byte offset the reader computes for the property at header position `i` is the sum of the sizes of
+the properties before it in HEADER order (whatever that order is) -/
+theorem ply_offset_is_prefix_sum (attr name : Bytes) (props : List (Bytes × SType)) (i : Nat) (hi : i < props.length)
+    (hname : props[i].1 = name) (hfirst : ∀ j (hj : j < i), (props[j]'(by omega)).1 ≠ name) :
+    buildV1 true props attr name =
+      some ⟨attr, [name], [((props.take i).map (fun p => p.2.size)).sum], some props[i].2⟩ := by
+  have := buildV1_spec true attr name props i hi hname hfirst
+  simpa [locOf, stride] using this
+
+/-- ASCII: the column is the header position -/
+theorem ply_column_is_header_index (attr name : Bytes) (props : List (Bytes × SType)) (i : Nat) (hi : i < props.length)
+    (hname : props[i].1 = name) (hfirst : ∀ j (hj : j < i), (props[j]'(by omega)).1 ≠ name) :
+    buildV1 false props attr name = some ⟨attr, [name], [i], none⟩ := by
+  have := buildV1_spec false attr name props i hi hname hfirst
+  simpa [locOf_ascii props i (by omega)] using this
+
+example : buildV1 true [(nm "b", .uchar), (nm "w", .double), (nm "a", .int)] (nm "a") (nm "a")
+    = some ⟨nm "a", [nm "a"], [9], some .int⟩ := by decide
+
+/-- vertex `i` carries exactly the value of record `i`: whatever the order and types of the properties, decoding a
+reference-encoded record at the offset computed from the header yields the stored value of that property -/
+theorem ply_record_field_any_layout (c : Coding α) (e : Endian) (dim : Nat)
+    (tys : List SType) (vals : List α) (rec pre post : Bytes) (i : Nat) (hi : i < tys.length)
+    (hv : vals.length = tys.length) (henc : encRecordBin c e tys vals = .ok rec) :
+    decScalarBin c e dim tys[i] (pre ++ rec ++ post) (pre.length + offsetOf tys i)
+      = .ok (quantBin c dim tys[i] (vals[i]'(by omega))) :=
+  field_at_offset c e dim tys vals rec pre post i hi hv henc
+
+/-- an extra unrecognised scalar becomes a scalar attribute read from its own field (binary) -/
+theorem ply_unclaimed_scalar_reads_own_field (c : Coding α) (e : Endian) (name : Bytes)
+    (props : List (Bytes × SType)) (vals : List α) (rec post : Bytes) (i : Nat) (hi : i < props.length)
+    (hname : props[i].1 = name) (hfirst : ∀ j (hj : j < i), (props[j]'(by omega)).1 ≠ name)
+    (hv : vals.length = props.length) (henc : encRecordBin c e (props.map (·.2)) vals = .ok rec) :
+    ∃ b, buildV1 true props name name = some b ∧ b.attr = name ∧
+      b.readBin c e (rec ++ post) = .ok [quantBin c 1 props[i].2 (vals[i]'(by omega))] := by
+  refine ⟨_, buildV1_spec true name name props i hi hname hfirst, rfl, ?_⟩
+  have h := field_at_offset c e 1 (props.map (·.2)) vals rec [] post i (by simpa using hi) (by simpa using hv) henc
+  simp only [List.nil_append, List.length_nil, Nat.zero_add, List.getElem_map] at h
+  simp [Built.readBin, locOf_binary, h, pure, Except.pure, bind, Except.bind]
+
+/-! ### header lines: LF and CRLF -/
+
+/-- a header line ended by LF or by CRLF is read as the same line, and reading resumes right after it -/
+theorem ply_header_line_lf_crlf (l rest : Bytes) (h : ∀ b ∈ l, b ≠ 10 ∧ b ≠ 13) :
+    readLine (l ++ 10 :: rest) = some (l, rest) ∧ readLine (l ++ 13 :: 10 :: rest) = some (l, rest) :=
+  ⟨readLine_lf l rest h, readLine_crlf l rest h⟩
+
+/-! ### quads -/
+
+/-- each quad contributes the two fan triangles over its listed vertices (specification side) … -/
 theorem fan_quad (a b c d : Nat) : fan [a, b, c, d] = [(a : Int), b, c, a, c, d] := rfl
+
+/-- … and the reader emits exactly those for a 4-entry index list (with the per-corner UVs of the same corners) -/
+theorem ply_reader_quad_fan (i0 i1 i2 i3 : Int) (t : List α) (ht : t.length = 8) :
+    ∃ uv, emitFace 4 false (⟨[i0, i1, i2, i3], t⟩ : FaceBufs α) = .ok ([i0, i1, i2, i0, i2, i3], uv) := by
+  match t, ht with
+  | [t0, t1, t2, t3, t4, t5, t6, t7], _ => exact ⟨[], by simp [emitFace]⟩
+
+theorem ply_reader_triangle (i0 i1 i2 i3 : Int) (t : List α) (ht : t.length = 8) :
+    ∃ uv, emitFace 3 false (⟨[i0, i1, i2, i3], t⟩ : FaceBufs α) = .ok ([i0, i1, i2], uv) := by
+  match t, ht with
+  | [t0, t1, t2, t3, t4, t5, t6, t7], _ => exact ⟨[], by simp [emitFace]⟩
+
+/-! ### finding: a recognised group with mixed scalar types is not recognised -/
+
+/-- `x float, y float, z double` (a layout the grammar allows): the position reader is not built, so the three
+properties are loaded as three scalar attributes instead of `Position` -/
+theorem ply_mixed_type_group_not_claimed (binary : Bool) :
+    buildReader binary [(nm "x", .float), (nm "y", .float), (nm "z", .double)]
+      ⟨positionAttr, [nm "x", nm "y", nm "z"], false⟩ = none := by
+  cases binary <;> decide
+
+/-- with one type the same layout is claimed, in any order of the three properties -/
+example : (buildReader true [(nm "z", .float), (nm "x", .float), (nm "y", .float)]
+      ⟨positionAttr, [nm "x", nm "y", nm "z"], false⟩).map (·.offs) = some [4, 8, 0] := by decide
+
+/-! ### the composed statement (residue) -/
+
+/-- representability of the stored values in their declared type and format (so that "the value of record i" is one
+value): the theorem's hypothesis, and exactly what the generators guarantee -/
+def SpecExact (c : Coding α) (f : SpecFile α) (valEq : α → α → Prop) : Prop :=
+  ∀ r ∈ f.verts, ∀ d ∈ r, match f.format, d with
+    | .ascii, .u8 b => ∃ x, c.parseF (showNat b.toNat) = some x ∧ valEq x (c.ofInt b.toNat)
+    | .ascii, .i32 i => ∃ x, c.parseF (showInt i) = some x ∧ valEq x (c.ofInt i)
+    | .ascii, .f32 x => ∃ y, c.parseF (c.showF x) = some y ∧ valEq y x
+    | .ascii, .f64 x => ∃ y, c.parseF (c.showF x) = some y ∧ valEq y x
+    | _, .f32 x => valEq (c.unf32 (c.f32 x)) x
+    | _, .f64 x => valEq (c.unf64 (c.f64 x)) x
+    | _, _ => True
+
+/-- every file of the grammar (uniform type inside each recognised group, distinct property names, at least one face
+when a face element is present, indices in range, texcoord count = 2 × vertex count, no 8-bit unrecognised scalar in
+ASCII) loads without error to the mesh it denotes -/
+def ply_reads_spec_full (c : Coding α) (wellFormed : SpecFile α → Prop) (sameMesh : MeshVal α → MeshVal α → Prop) : Prop :=
+  ∀ f : SpecFile α, wellFormed f → SpecExact c f (· = ·) →
+    ∃ m m', readMesh c defaultReader (refEncode c f) = .ok m ∧ meaning c f = some m' ∧ sameMesh m m'
 
 end C08
 end PolyVerif
